@@ -1157,7 +1157,7 @@ class Evaluator:
             if r is not NotImplemented:
                 return r
         opaque = q in self.policy.opaque or (self.policy.opaque_pred and self.policy.opaque_pred(q))
-        if bound is None or opaque or fr.depth >= self.policy.max_depth or q in self._stack:
+        if bound is None or opaque or fr.depth >= self.policy.max_depth or self._stack.count(q) >= 4:
             rty = ann_type(fi.node.returns)
             if bound is not None:
                 names = [p for p in fi.params() if p in bound]
@@ -1441,13 +1441,13 @@ class Evaluator:
         if n in ("copy.copy", "copy.deepcopy"):
             return clone(a0)
         if n == "secrets.randbelow":
-            return T("csprng", ("randbelow", a0, len(fr.summary.calls)), tm.INT)
+            return T("csprng", ("randbelow", a0, _site(e)), tm.INT)
         if n == "secrets.token_bytes":
-            return T("csprng", ("token_bytes", a0, len(fr.summary.calls)), tm.BYTES)
+            return T("csprng", ("token_bytes", a0, _site(e)), tm.BYTES)
         if n == "os.urandom":
-            return T("csprng", ("urandom", a0, len(fr.summary.calls)), tm.BYTES)
+            return T("csprng", ("urandom", a0, _site(e)), tm.BYTES)
         if n in ("random.randrange", "random.randint", "random.getrandbits", "random.random", "random.randbytes"):
-            return T("prng", (n, tuple(pos), len(fr.summary.calls)), tm.INT)
+            return T("prng", (n, tuple(pos), _site(e)), tm.INT)
         if n == "time.time":
             return T("clock", (), tm.FLOAT)
         if n == "math.ceil":
@@ -1455,6 +1455,10 @@ class Evaluator:
         if n == "os.path.join":
             return T("pathjoin", tuple(pos), tm.STR)
         return NotImplemented
+
+
+def _site(e):
+    return "%s:%s" % (getattr(e, "lineno", 0), getattr(e, "col_offset", 0))
 
 
 _EXT_TY = {"os.path.exists": tm.BOOL, "os.listdir": tm.LIST}
